@@ -2,6 +2,7 @@
 from __future__ import annotations
 
 import ast
+from ..core import utext
 import re
 
 from ..core import AnalysisError, Program, call_name, const, norm
@@ -271,7 +272,7 @@ def run(prog: Program, res: Result, tier: str) -> None:
     if fx is None:
         res.unrecognised("X-FORMAT", inst, r.loc(), "Geometry.from_xyz vanished")
     else:
-        ft = ast.unparse(fx.node) + ast.unparse(r.node)
+        ft = utext(fx.node) + utext(r.node)
         if ".splitlines(" in ft:
             res.bad("X-FORMAT", "from_xyz splits the text with splitlines()",
                     fx.loc(), f"{inst}: str.splitlines() breaks a comment "
@@ -291,7 +292,7 @@ def run(prog: Program, res: Result, tier: str) -> None:
                 f"{inst}: with the default '#' a comment line or symbol "
                 "containing # truncates the data", instance=inst)
     inst = "reader result is at least 1-d"
-    rt = ast.unparse(r.node)
+    rt = utext(r.node)
     if ("ndmin" in kw and norm(kw["ndmin"]) in ("1", "2")) or \
             "np.atleast_1d(" in rt:
         res.ok("X-FORMAT", inst, r.loc(load))
@@ -330,7 +331,7 @@ def run(prog: Program, res: Result, tier: str) -> None:
                          "element lookup not recognised")
     # ---- connectivity -----------------------------------------------------
     fb = prog.resolve_method("MolGraph", "from_atom_types_and_bond_order_matrix")
-    t = ast.unparse(fb.node)
+    t = utext(fb.node)
     tri = [n for n in ast.walk(fb.node) if isinstance(n, ast.Call)
            and call_name(n) in ("np.triu_indices", "np.triu_indices_from")]
     inst = "bonds from the strict upper triangle (k=1)"
@@ -357,7 +358,7 @@ def run(prog: Program, res: Result, tier: str) -> None:
         res.unrecognised("X-CONN", inst, fb.loc(), "enumerate(atom_types) / "
                          "add_atom(i, ...) not found")
     dfd = prog.cls("_DefaultFuncDict").methods.get("array")
-    at = ast.unparse(dfd.node)
+    at = utext(dfd.node)
     inst = "_DefaultFuncDict.array stores every cut-off symmetrically"
     tgts = [t for n in ast.walk(dfd.node) if isinstance(n, ast.Assign)
             for t in n.targets if isinstance(t, ast.Subscript)]
@@ -401,7 +402,7 @@ def run(prog: Program, res: Result, tier: str) -> None:
     else:
         res.unrecognised("X-CONN", inst, arr.loc(), "no np.where")
     call = bfd.methods.get("__call__")
-    ct = ast.unparse(call.node)
+    ct = utext(call.node)
     inst = "BondsFromDistance.__call__: distance < cut-off (strict)"
     dc_ = [n for n in ast.walk(call.node) if isinstance(n, ast.Compare)
            and norm(n.left) == "distance" and "connectivity_cutoff" in norm(n)]
@@ -414,7 +415,7 @@ def run(prog: Program, res: Result, tier: str) -> None:
         res.unrecognised("X-CONN", inst, call.loc(), "comparison of the "
                          "distance with the cut-off not found")
     dc = prog.fn("coords:default_connectivity_cutoff")
-    dt = ast.unparse(dc.node)
+    dt = utext(dc.node)
     inst = "default cut-off = sum of covalent radii * 1.2"
     mults = [n for n in ast.walk(dc.node) if isinstance(n, ast.BinOp)
              and isinstance(n.op, ast.Mult)
@@ -444,7 +445,7 @@ def run(prog: Program, res: Result, tier: str) -> None:
                 f"({sorted(set(symbols) ^ set(radii))[:5]})", instance=inst)
     # _DefaultFuncDict.__missing__ symmetric fallback
     ms = prog.cls("_DefaultFuncDict").methods.get("__missing__")
-    mt = ast.unparse(ms.node)
+    mt = utext(ms.node)
     inst = "_DefaultFuncDict.__missing__ looks up the swapped pair first"
     if "self.get((key[1], key[0]), None)" in mt and "self.default_func(key)" in mt:
         res.ok("X-CONN", inst, ms.loc())
